@@ -349,6 +349,16 @@ func QeModel(w *World) QeOutcome {
 			return out
 		}
 	}
+	if d.RawIsvProdID != "" {
+		out.Reason = "isvprodid is not a number the field can hold"
+		return out
+	}
+	for _, l := range d.Levels {
+		if l.RawSvn != "" {
+			out.Reason = "a level's isvsvn is not a number the field can hold"
+			return out
+		}
+	}
 	if !bytes.Equal(d.Mrsigner, q.QeMrSigner[:]) {
 		out.Reason = "mrsigner differs"
 		return out
